@@ -17,6 +17,8 @@ LEVEL = "other"
 def run(chk):
     cfgs = ["base", "z"] if chk.tier == "quick" else ["base", "z", "hi", "z+hi"]
     chk.configs = cfgs
+    chk.rule("WRAP.no-passthrough", "Intersect / Union / Difference / Xor / BooleanOp never hand one of their path parameters back as the result (unless known "
+             "empty): the result is what the sweep produced under the fill rule")
     chk.rule("FLOAT.double-only", "no float-typed expression and no single-precision math function in any library function")
     chk.rule("POLY.intersect", "GetSegmentIntersectPt (both precision variants): as a real-number formula the stored point lies on the lines through both "
              "segments, and 'parallel' is reported iff the cross product of the directions vanishes (identity of polynomial normal forms)")
@@ -36,6 +38,8 @@ def run(chk):
         e3.table_crossing_dispatch(db, chk, cfg)
         e9.rule_int64_product(db, chk, cfg)
         e3.ip_on_edge_rule(db, chk, cfg)
+        from ..engines import e8_scale as _e8
+        _e8.rule_no_passthrough(db, chk, cfg)
         e14.rule_topx(db, chk, cfg)
         rec = db.record("Active")
         for fd in rec.fields:
